@@ -166,3 +166,91 @@ func (c *Ctx) RunReadd() {
 	}
 	c.Rep.Bound += fmt.Sprintf("; the caller's one WarriorData variable handed to AddWarrior two and three times (one simulator, and two simulators alternately) with each of the %d mutations (or none) in between, then a 4-cycle battle of all the warriors: %d sequences compared with the same calls given an independent deep copy each", nMutations(), n)
 }
+
+
+// UntouchedCase: one shape of caller data.
+type UntouchedCase struct {
+	Len   int  `json:"len"`
+	Start int  `json:"start"`
+	Wide  bool `json:"fields_beyond_core,omitempty"`
+	Bare  bool `json:"no_metadata,omitempty"`
+	Spare int  `json:"spare_capacity,omitempty"`
+}
+
+// checkUntouched: AddWarrior, a spawn and a short battle leave the caller's
+// WarriorData (and the spare capacity behind its code) exactly as it was,
+// whatever shape it has - also entry points at and beyond the code length.
+func (c *Ctx) checkUntouched(k *UntouchedCase) {
+	rep := c.Rep
+	rep.States++
+	rep.Transitions++
+	rep.Traces++
+	sc := &Scenario{Mode: "untouched", Untouched: k}
+	base := isoWarriorFull().Code
+	backing := make([]g.Instruction, k.Len+k.Spare)
+	for i := range backing {
+		backing[i] = base[i%len(base)]
+		if k.Wide {
+			backing[i].A += g.Address(16 * (i + 1))
+			backing[i].B += g.Address(1600 * (i + 1))
+		}
+	}
+	data := &g.WarriorData{Name: "iso", Author: "au", Strategy: "st", Code: backing[:k.Len], Start: k.Start}
+	if k.Bare {
+		data.Name, data.Author, data.Strategy = "", "", ""
+	}
+	snap := func() string {
+		return fmt.Sprintf("%s start=%d len=%d cap=%d %q %q %q backing=%s", hx.CoreStr(data.Code), data.Start, len(data.Code), cap(data.Code), data.Name, data.Author, data.Strategy, hx.CoreStr(backing))
+	}
+	before := snap()
+	pan := ""
+	func() {
+		defer func() {
+			if p := recover(); p != nil {
+				pan = fmt.Sprint(p)
+			}
+		}()
+		sim, err := g.NewSimulator(readdCfg)
+		if err != nil {
+			return
+		}
+		if _, err := sim.AddWarrior(data); err != nil {
+			return
+		}
+		if after := snap(); after != before {
+			c.fail("battle-changed-caller-data", sc.witness(), fmt.Sprintf("AddWarrior changed the caller's data: before %s; after %s", before, after))
+			return
+		}
+		sim.SpawnWarrior(0, 3)
+		for i := 0; i < 3; i++ {
+			sim.RunCycle()
+		}
+		sim.Reset()
+	}()
+	_ = pan // a panic on odd data is not this property's concern (C04/C13 own it)
+	if after := snap(); after != before {
+		c.fail("battle-changed-caller-data", sc.witness(), fmt.Sprintf("caller's data before: %s; after AddWarrior, spawn, three cycles and Reset: %s", before, after))
+		return
+	}
+	rep.Count("c14:caller-data-shapes")
+}
+
+func (c *Ctx) RunUntouched() {
+	n := 0
+	for _, L := range []int{0, 1, 3, 4} {
+		for _, st := range []int{0, 1, L - 1, L, L + 1, L + 4, 2 * L, 100} {
+			if st < 0 {
+				continue
+			}
+			for _, wide := range []bool{false, true} {
+				for _, bare := range []bool{false, true} {
+					for _, spare := range []int{0, 2} {
+						c.checkUntouched(&UntouchedCase{Len: L, Start: st, Wide: wide, Bare: bare, Spare: spare})
+						n++
+					}
+				}
+			}
+		}
+	}
+	c.Rep.Bound += fmt.Sprintf("; %d shapes of caller data (code length 0/1/3/4, entry points inside, at and beyond the code length, fields beyond the core, no metadata, spare capacity behind the code): AddWarrior, spawn, three cycles and Reset leave the data and the spare capacity untouched", n)
+}
